@@ -52,7 +52,7 @@ def nav(propid, nt_rule):
         harness='nav', env={'VH_PROP': propid},
         rule=NAV_RULE + nt_rule,
         tiers=dict(
-            quick=[enum(shards=4, variant='san', env={'VH_ENUM_N': '5'}), rc(25000, shards=6, max_size=300, corpus=['valid_objects']),
+            quick=[enum(shards=4, variant='san', env={'VH_ENUM_N': '5'}), rc(60000, shards=6, max_size=300, corpus=['valid_objects']),
                    fuzz(100000, shards=6, corpus=['valid_objects'])],
             thorough=[enum(shards=12, variant='san', env={'VH_ENUM_N': '6'}), enum(shards=16, variant='plain', tag='plain7', env={'VH_ENUM_N': '7'}),
                       rc(500000, shards=6, max_size=500, corpus=['valid_objects']), fuzz(1200000, shards=10, max_len=1024, corpus=['valid_objects'])],
@@ -82,7 +82,7 @@ PROPS['C01'] = dict(
     rule=APISEQ_RULE + 'Non-trivial iff init was accepted and >= 1 advancing call succeeded, or init was rejected and further calls followed; '
          'distinct = hash(document, executed op kinds).',
     tiers=dict(
-        quick=[rc(30000, shards=6, max_size=250, corpus=CORPUS), fuzz(400000, shards=10, corpus=CORPUS)],
+        quick=[rc(120000, shards=6, max_size=250, corpus=CORPUS), fuzz(400000, shards=10, corpus=CORPUS)],
         thorough=[rc(600000, shards=4, max_size=500, corpus=CORPUS), fuzz(6000000, shards=12, max_len=4096, corpus=CORPUS)],
     ),
 )
@@ -94,7 +94,7 @@ PROPS['C14'] = dict(
           'the reference renderer; plus every tree with <= N nodes over {object, array, int, bool} (all combinations of empty/non-empty containers as '
           'first/middle/last sibling). Non-trivial iff the tree has >= 2 siblings at some level and >= 1 nested container; distinct = hash(document).'),
     tiers=dict(
-        quick=[enum(shards=4, variant='san', env={'VH_ENUM_N': '6'}), rc(30000, shards=6, max_size=250, corpus=['valid_objects']),
+        quick=[enum(shards=4, variant='san', env={'VH_ENUM_N': '6'}), rc(80000, shards=6, max_size=250, corpus=['valid_objects']),
                fuzz(150000, shards=6, corpus=['valid_objects'])],
         thorough=[enum(shards=8, variant='san', env={'VH_ENUM_N': '8'}), rc(600000, shards=4, max_size=500, corpus=['valid_objects']),
                   fuzz(1500000, shards=12, max_len=1024, corpus=['valid_objects'])],
@@ -151,7 +151,7 @@ PROPS['C05'] = dict(
          'encoding and read back. Non-trivial iff some integer or length needs more than one byte; distinct = hash(encoding) / sampled sweep values '
          '(every 64th boundary integer and every length are entered into the distinct set).',
     tiers=dict(
-        quick=[enum(shards=8, variant='plain'), rc(20000, shards=4, max_size=300), fuzz(100000, shards=4, max_len=512)],
+        quick=[enum(shards=8, variant='plain'), rc(60000, shards=4, max_size=300), fuzz(100000, shards=4, max_len=512)],
         thorough=[enum(shards=16, variant='plain'), rc(400000, shards=4, max_size=600), fuzz(1500000, shards=10, max_len=2048)],
     ),
     exhaustive_note=lambda tier, tot: [dict(scope='integers within 2^16 of +-2^k, k=0..63' + (' and all 2^32 32-bit values' if tier == 'thorough' else ''),
@@ -168,8 +168,8 @@ PROPS['C09'] = dict(
           'Non-trivial iff >= 3 calls follow the first error incl. one advancing call and one getter (parser) / one write that would still fit '
           '(writer); distinct = hash(document or encoding, op kinds, capacity).'),
     tiers=dict(
-        quick=[rc(30000, shards=4, max_size=250, corpus=CORPUS), fuzz(300000, shards=5, corpus=CORPUS),
-               rc(30000, shards=3, max_size=250, harness='writer', tag='w'), fuzz(150000, shards=4, max_len=256, harness='writer', tag='w')],
+        quick=[rc(100000, shards=4, max_size=250, corpus=CORPUS), fuzz(300000, shards=5, corpus=CORPUS),
+               rc(60000, shards=3, max_size=250, harness='writer', tag='w'), fuzz(150000, shards=4, max_len=256, harness='writer', tag='w')],
         thorough=[rc(600000, shards=3, max_size=500, corpus=CORPUS), fuzz(5000000, shards=7, max_len=4096, corpus=CORPUS),
                   rc(600000, shards=2, max_size=500, harness='writer', tag='w'), fuzz(2500000, shards=4, max_len=1024, harness='writer', tag='w')],
     ),
@@ -185,7 +185,7 @@ PROPS['C03'] = dict(
           '(thorough) every 32-bit value, every string/bytes length (quick subset / thorough 0..70000) from the reference encoder through the parser. '
           'Non-trivial iff the document has an integer outside int8, a length >= 128 or nesting >= 2; distinct = hash(document) / sampled sweep values.'),
     tiers=dict(
-        quick=[enum(shards=8, variant='plain'), rc(20000, shards=4, max_size=300, corpus=['valid_objects']), fuzz(100000, shards=4, max_len=512, corpus=['valid_objects'])],
+        quick=[enum(shards=8, variant='plain'), rc(60000, shards=4, max_size=300, corpus=['valid_objects']), fuzz(100000, shards=4, max_len=512, corpus=['valid_objects'])],
         thorough=[enum(shards=16, variant='plain'), rc(400000, shards=4, max_size=600, corpus=['valid_objects']), fuzz(1500000, shards=10, max_len=2048, corpus=['valid_objects'])],
     ),
     exhaustive_note=lambda tier, tot: [dict(scope='integer encodings within 2^16 of +-2^k, k=0..63' + (' and all 2^32 1-, 2- and 4-byte encodings' if tier == 'thorough' else ''),
@@ -200,7 +200,7 @@ PROPS['C10'] = dict(
           'must equal the input byte for byte. Non-trivial iff the document has >= 3 distinct token kinds and one multi-byte integer or length; '
           'distinct = hash(document).'),
     tiers=dict(
-        quick=[enum(shards=2, variant='san'), rc(30000, shards=7, max_size=300, corpus=['valid_objects']), fuzz(150000, shards=7, max_len=512, corpus=['valid_objects'])],
+        quick=[enum(shards=2, variant='san'), rc(80000, shards=7, max_size=300, corpus=['valid_objects']), fuzz(150000, shards=7, max_len=512, corpus=['valid_objects'])],
         thorough=[enum(shards=2, variant='san'), rc(600000, shards=4, max_size=600, corpus=['valid_objects']), fuzz(1500000, shards=10, max_len=2048, corpus=['valid_objects'])],
     ),
     exhaustive_note=lambda tier, tot: [dict(scope='all shipped valid corpus files (utest/test_data/valid_objects)', exhaustive=True,
@@ -217,7 +217,7 @@ PROPS['C08'] = dict(
           'the strategy passed over without entering (skip, early leave, raw, lookup), or it is valid and the strategy used an early leave; '
           'distinct = hash(bytes, strategy choices).'),
     tiers=dict(
-        quick=[rc(30000, shards=7, max_size=250, corpus=CORPUS), fuzz(200000, shards=9, corpus=CORPUS)],
+        quick=[rc(80000, shards=7, max_size=250, corpus=CORPUS), fuzz(200000, shards=9, corpus=CORPUS)],
         thorough=[rc(600000, shards=4, max_size=500, corpus=CORPUS), fuzz(2000000, shards=12, max_len=2048, corpus=CORPUS)],
     ),
 )
@@ -233,7 +233,7 @@ PROPS['C12'] = dict(
           'iff the previous use ended inside a container, in an error, with a rejected init or over a garbage struct, the restart was accepted and >= 4 '
           'calls were compared (writer: the previous use ended in an error); distinct = hash(both documents, op kinds).'),
     tiers=dict(
-        quick=[rc(30000, shards=7, max_size=300, corpus=CORPUS), fuzz(250000, shards=9, corpus=CORPUS)],
+        quick=[rc(80000, shards=7, max_size=300, corpus=CORPUS), fuzz(250000, shards=9, corpus=CORPUS)],
         thorough=[rc(600000, shards=4, max_size=600, corpus=CORPUS), fuzz(2500000, shards=12, max_len=2048, corpus=CORPUS)],
     ),
 )
@@ -246,7 +246,7 @@ PROPS['C16'] = dict(
           'to_string). A watchdog (libFuzzer -timeout=10, rapidcheck job cap + 10 s replay) reports a hang only after three confirming replays of the saved '
           'case. Non-trivial iff some call advanced over >= 2 tokens without returning to the caller; distinct = hash(document, op kinds).'),
     tiers=dict(
-        quick=[rc(30000, shards=6, max_size=250, corpus=CORPUS, hang_is_violation=True, timeout=400),
+        quick=[rc(100000, shards=6, max_size=250, corpus=CORPUS, hang_is_violation=True, timeout=400),
                fuzz(350000, shards=10, corpus=CORPUS, unit_timeout=10, timeouts_count=True)],
         thorough=[rc(600000, shards=4, max_size=500, corpus=CORPUS, hang_is_violation=True, timeout=3000),
                   fuzz(5000000, shards=12, max_len=4096, corpus=CORPUS, unit_timeout=10, timeouts_count=True)],
